@@ -227,7 +227,9 @@ def U_pair():
     top_sigs = [sig("u", 1), sig("v", 1), sig("w2", 2)]
     DL = [(("p",), 1), (("n",), 1)]
     terms = [Bund("d"), Sig("u"), Anon(p=Sig("u"), n=Sig("v")), Anon(p=Bref("d", "n"), n=Bref("d", "p")), Bref("d", "p"),
-             Slc(Sig("w2"), I(0)), Anon(p=Slc(Sig("w2"), I(0)), n=Slc(Sig("w2"), I(1))), Sig("w2"), Bund("e"), Anon(p=Sig("u")), Nc(5)]
+             Slc(Sig("w2"), I(0)), Anon(p=Slc(Sig("w2"), I(0)), n=Slc(Sig("w2"), I(1))), Sig("w2"), Bund("e"), Anon(p=Sig("u")), Nc(5),
+             # members written in another order than Diff declares them
+             Anon(n=Sig("v"), p=Sig("u")), AnonDict(n=Bref("d", "p"), p=Slc(Sig("w2"), I(1)))]
     for ta, tb in itertools.product(terms, terms):
         insts = [inst("pr", "C2", [("a", ta), ("b", tb)], kind="pair")]
         out.append(("U_pair", design({"C2": c2, "Top": mod(top_sigs, insts + bprobes("d", DL) + bprobes("e", DL), [bnd("d", "Diff"), bnd("e", "Diff")])},
